@@ -418,7 +418,9 @@ pub fn sum_simd(array: &dyn Array) -> Result<ScalarValue> {
                 }
             }
 
-            Ok(ScalarValue::Int64(Some(sum)))
+            // SUM over no valid value is NULL, as in arrow::compute::sum
+            let any_valid = array.null_count() < array.len();
+            Ok(ScalarValue::Int64(any_valid.then_some(sum)))
         }
         DataType::Float64 => {
             let float_array = array
@@ -433,7 +435,8 @@ pub fn sum_simd(array: &dyn Array) -> Result<ScalarValue> {
                 }
             }
 
-            Ok(ScalarValue::Float64(Some(sum)))
+            let any_valid = array.null_count() < array.len();
+            Ok(ScalarValue::Float64(any_valid.then_some(sum)))
         }
         _ => Err(QueryError::Execution(format!(
             "Unsupported type for sum: {:?}",
